@@ -357,6 +357,55 @@ func (g *cgen) enumSweep() []struct {
 	return out
 }
 
+// boundarySweep: every variable field of every body kind exactly at and one past its wire width
+// (255/256 octets, 65535/65536 octets, 255/256 arguments, argument of 255/256 octets).
+func (g *cgen) boundarySweep() []struct {
+	k string
+	v tq.EncoderDecoder
+} {
+	type kv = struct {
+		k string
+		v tq.EncoderDecoder
+	}
+	var out []kv
+	t := func(n int) string { return pad(n, 'a') }
+	for _, n := range []int{255, 256} {
+		for f := 0; f < 4; f++ {
+			l := [4]int{1, 2, 3, 4}
+			l[f] = n
+			out = append(out, kv{"AuthenStart", &tq.AuthenStart{Action: 1, PrivLvl: 1, Type: 2, Service: 1, User: tq.AuthenUser(t(l[0])), Port: tq.AuthenPort(t(l[1])), RemAddr: tq.AuthenRemAddr(t(l[2])), Data: tq.AuthenData(t(l[3]))}})
+		}
+		for f := 0; f < 3; f++ {
+			l := [3]int{1, 2, 3}
+			l[f] = n
+			out = append(out, kv{"AuthorRequest", &tq.AuthorRequest{Method: 6, PrivLvl: 1, Type: 1, Service: 1, User: tq.AuthenUser(t(l[0])), Port: tq.AuthenPort(t(l[1])), RemAddr: tq.AuthenRemAddr(t(l[2])), Args: tq.Args{"a=b"}}})
+			out = append(out, kv{"AcctRequest", &tq.AcctRequest{Flags: 2, Method: 6, PrivLvl: 1, Type: 1, Service: 1, User: tq.AuthenUser(t(l[0])), Port: tq.AuthenPort(t(l[1])), RemAddr: tq.AuthenRemAddr(t(l[2])), Args: tq.Args{"a=b"}}})
+		}
+		many := make(tq.Args, n)
+		for i := range many {
+			many[i] = tq.Arg("k=v")
+		}
+		out = append(out, kv{"AuthorRequest", &tq.AuthorRequest{Method: 6, PrivLvl: 1, Type: 1, Service: 1, User: "u", Args: many}})
+		out = append(out, kv{"AuthorReply", &tq.AuthorReply{Status: 1, Args: many}})
+		out = append(out, kv{"AcctRequest", &tq.AcctRequest{Flags: 2, Method: 6, PrivLvl: 1, Type: 1, Service: 1, User: "u", Args: many}})
+		long := tq.Args{tq.Arg(t(n))}
+		out = append(out, kv{"AuthorRequest", &tq.AuthorRequest{Method: 6, PrivLvl: 1, Type: 1, Service: 1, User: "u", Args: long}})
+		out = append(out, kv{"AuthorReply", &tq.AuthorReply{Status: 1, Args: long}})
+		out = append(out, kv{"AcctRequest", &tq.AcctRequest{Flags: 2, Method: 6, PrivLvl: 1, Type: 1, Service: 1, User: "u", Args: long}})
+	}
+	for _, n := range []int{65535, 65536} {
+		out = append(out, kv{"AuthenReply", &tq.AuthenReply{Status: 1, ServerMsg: tq.AuthenServerMsg(t(n)), Data: "d"}})
+		out = append(out, kv{"AuthenReply", &tq.AuthenReply{Status: 1, ServerMsg: "m", Data: tq.AuthenData(t(n))}})
+		out = append(out, kv{"AuthenContinue", &tq.AuthenContinue{UserMessage: tq.AuthenUserMessage(t(n)), Data: "d"}})
+		out = append(out, kv{"AuthenContinue", &tq.AuthenContinue{UserMessage: "m", Data: tq.AuthenData(t(n))}})
+		out = append(out, kv{"AuthorReply", &tq.AuthorReply{Status: 1, ServerMsg: tq.AuthorServerMsg(t(n)), Data: "d"}})
+		out = append(out, kv{"AuthorReply", &tq.AuthorReply{Status: 1, ServerMsg: "m", Data: tq.AuthorData(t(n))}})
+		out = append(out, kv{"AcctReply", &tq.AcctReply{Status: 1, ServerMsg: tq.AcctServerMsg(t(n)), Data: "d"}})
+		out = append(out, kv{"AcctReply", &tq.AcctReply{Status: 1, ServerMsg: "m", Data: tq.AcctData(t(n))}})
+	}
+	return out
+}
+
 // ---- operations -------------------------------------------------------------------------
 
 func safeMarshal(v tq.EncoderDecoder) (b []byte, err error, panicked string) {
@@ -507,6 +556,9 @@ func cmdCodec(args []string) {
 		for _, kv := range g.enumSweep() {
 			roundTrip(rec, kv.k, kv.v)
 			decodeFirst(rec, kv.k, rfcEnc(kv.v), 0, true)
+		}
+		for _, kv := range g.boundarySweep() {
+			roundTrip(rec, kv.k, kv.v)
 		}
 		for i := 0; i < n; i++ {
 			k := allKinds[i%len(allKinds)]
